@@ -7,6 +7,7 @@ package sim
 
 import (
 	"fmt"
+	"math/rand"
 	"os"
 	"os/exec"
 	"path/filepath"
@@ -16,7 +17,10 @@ import (
 	"strings"
 	"testing"
 
+	"github.com/evolbioinfo/gotree/acr"
 	"github.com/evolbioinfo/gotree/cmd"
+	"github.com/evolbioinfo/gotree/io/nexus"
+	"github.com/evolbioinfo/gotree/tree"
 	"github.com/spf13/cobra"
 	"github.com/spf13/pflag"
 	"pgregory.net/rapid"
@@ -49,7 +53,84 @@ type detTemplate struct {
 	perTree  bool     // threaded per-tree records: compared after sorting the lines
 	threaded bool     // takes -t
 	noSeed   bool
+	// lib != nil: not a command but a sequence of library calls ("the library counterparts"), executed under the same seams after rand.Seed(seed)
+	lib func(files map[string]string, c *DetCase) (string, error)
 }
+
+func firstTree(files map[string]string, name string) *tree.Tree {
+	return mustParse(strings.TrimSpace(strings.Split(files[name], "\n")[0]))
+}
+
+var libTemplates = []detTemplate{
+	{name: "lib-removetips-indexed", lib: func(f map[string]string, c *DetCase) (string, error) {
+		t := firstTree(f, "one.nw")
+		if err := t.ReinitIndexes(); err != nil {
+			return "", err
+		}
+		names := sortedTipNames(t)
+		err := t.RemoveTips(false, names[0], names[len(names)/2], names[len(names)-1], names[1])
+		return t.Newick(), err
+	}},
+	{name: "lib-removetips-clone-revert", lib: func(f map[string]string, c *DetCase) (string, error) {
+		t := firstTree(f, "one.nw").Clone()
+		names := sortedTipNames(t)
+		err := t.RemoveTips(true, names[:len(names)-2]...)
+		return t.Newick(), err
+	}},
+	{name: "lib-rename-chain", lib: func(f map[string]string, c *DetCase) (string, error) {
+		t := firstTree(f, "one.nw")
+		names := sortedTipNames(t)
+		m := map[string]string{}
+		for i := 0; i+1 < len(names) && i < 5; i++ {
+			m[names[i]] = names[i+1]
+		}
+		m[names[min(5, len(names)-1)]] = "zz"
+		err := t.Rename(m)
+		return t.Newick(), err
+	}},
+	{name: "lib-random-edits", lib: func(f map[string]string, c *DetCase) (string, error) {
+		t := firstTree(f, "one.nw")
+		t.ShuffleTips()
+		t.Resolve()
+		t.RotateInternalNodes()
+		return t.Newick(), nil
+	}},
+	{name: "lib-generators", lib: func(f map[string]string, c *DetCase) (string, error) {
+		a, err := tree.RandomYuleBinaryTree(9, true)
+		if err != nil {
+			return "", err
+		}
+		b, err := tree.RandomUniformBinaryTree(9, false)
+		if err != nil {
+			return "", err
+		}
+		return a.Newick() + "\n" + b.Newick(), nil
+	}},
+	{name: "lib-nexus-translate", lib: func(f map[string]string, c *DetCase) (string, error) {
+		var texts []string
+		for _, ln := range strings.Split(strings.TrimSpace(f["numeric.nw"]), "\n") {
+			texts = append(texts, ln)
+		}
+		return nexus.WriteNexus(treeChan(texts), true)
+	}},
+	{name: "lib-acr", lib: func(f map[string]string, c *DetCase) (string, error) {
+		t := firstTree(f, "rooted.nw")
+		states := map[string]string{}
+		for _, ln := range strings.Split(strings.TrimSpace(f["numstates.txt"]), "\n") {
+			if kv := strings.Split(ln, "\t"); len(kv) == 2 {
+				states[kv[0]] = kv[1]
+			}
+		}
+		m, steps, err := acr.ParsimonyAcr(t, states, acr.ALGO_DOWNPASS, true)
+		var b strings.Builder
+		for _, k := range sortedKeys(m) {
+			b.WriteString(k + "=" + m[k] + ";")
+		}
+		return fmt.Sprintf("%s steps=%d %s", t.Newick(), steps, b.String()), err
+	}},
+}
+
+func init() { detTemplates = append(detTemplates, libTemplates...) }
 
 var detTemplates = []detTemplate{
 	{name: "shuffletips", args: []string{"shuffletips", "-i", "@one.nw", "--seed", "@SEED", "-o", "@OUT"}},
@@ -331,10 +412,17 @@ func genC18(rt *rapid.T, tier string) any {
 		c.Interfere = detTemplates[rapid.IntRange(0, len(detTemplates)-1).Draw(rt, "itemplate")].name
 		if rapid.Bool().Draw(rt, "samefamily") {
 			// another command of the same family (same first word: asr after asr, compute after compute, ...)
-			fam := templateByName(c.Template).args[0]
+			family := func(t *detTemplate) string {
+				if len(t.args) == 0 {
+					return "lib"
+				}
+				return t.args[0]
+			}
+			fam := family(templateByName(c.Template))
 			var same []string
-			for _, t := range detTemplates {
-				if t.args[0] == fam && t.name != c.Template {
+			for i := range detTemplates {
+				t := &detTemplates[i]
+				if family(t) == fam && t.name != c.Template {
 					same = append(same, t.name)
 				}
 			}
@@ -441,6 +529,31 @@ func runInProcess(t *testing.T, dir string, tpl *detTemplate, c *DetCase, seam S
 }
 
 func runInProcessRes(t *testing.T, dir string, tpl *detTemplate, c *DetCase, seam Seam, tag string, out *sched.Result) detResult {
+	if tpl.lib != nil {
+		var text string
+		var lerr error
+		cfg := seam.Sched.Config(3_000_000)
+		cfg.MapSeed, cfg.HasMapSeed, cfg.Epoch = seam.MapSeed, true, seam.Epoch
+		res := sched.Run(t, cfg, func() {
+			rand.Seed(int64(c.Seed))
+			text, lerr = tpl.lib(c.Files, c)
+		})
+		if out != nil {
+			*out = res
+		}
+		status := "ok"
+		switch {
+		case len(res.Panics) > 0:
+			status = "panic: " + res.Panics[0].Value
+		case res.Exit != nil:
+			status = fmt.Sprintf("exit(%d)", res.Exit.Code)
+		case res.Deadlock:
+			status = "deadlock"
+		case lerr != nil:
+			status = "error: " + lerr.Error()
+		}
+		return detResult{map[string]string{"OUT": text}, status}
+	}
 	args, outFiles := tpl.expand(dir, c, tag)
 	stdoutPath := filepath.Join(dir, tag+".stdout")
 	f, err := os.Create(stdoutPath)
@@ -560,6 +673,9 @@ func execC18(t *testing.T, cc any, o *Outcome) {
 		c.Threads = 1
 	}
 	ctx := fmt.Sprintf("template %s: %s\n--seed %d, threads %d", tpl.name, strings.Join(tpl.args, " "), c.Seed, c.Threads)
+	if tpl.lib != nil {
+		ctx = fmt.Sprintf("library calls %s (sim/c18.go), rand.Seed(%d)", tpl.name, c.Seed)
+	}
 	seamText := func(s Seam) string {
 		return fmt.Sprintf("map-order seed %d, epoch %d, schedule strategy %d seed %d", s.MapSeed, s.Epoch, s.Sched.Strategy, s.Sched.Seed)
 	}
@@ -612,7 +728,7 @@ func execC18(t *testing.T, cc any, o *Outcome) {
 		o.Fail("nondeterministic:"+tpl.name, "the output depends on a seam (%s)\n%s\nseam A: %s\nseam B: %s\n%s", cause, ctx, seamText(c.SeamA), seamText(c.SeamB), d)
 		return
 	}
-	if c.Proc {
+	if c.Proc && tpl.lib == nil {
 		pa, err := runProcess(dir, tpl, c, c.SeamA, "pa")
 		if err != nil {
 			panic("harness: cannot run the instrumented binary: " + err.Error())
